@@ -134,7 +134,9 @@ def make_scenarios(case):
         el = element(g, kind, s, e)
         with_.insert(min(case["pos"], len(with_)), el)
     elif kind == "order":
-        el = dict(type="OrderBook", name="el", nodes=["n1"], orders=dict(start=[s], end=[e], capa=[S.r(2.0, g)], price=[0.5]))
+        # the order under test comes first, followed by an order that lies inside the horizon
+        s_in, e_in = g.instant_iso(("gp", 1)), g.instant_iso(("gp", g.T - 1))
+        el = dict(type="OrderBook", name="el", nodes=["n1"], orders=dict(start=[s, s_in], end=[e, e_in], capa=[S.r(2.0, g), S.r(1.0, g)], price=[0.5, 1.5]))
         with_.insert(min(case["pos"], len(with_)), el)
     else:
         # take period on the market contract
@@ -143,7 +145,13 @@ def make_scenarios(case):
         vol = 12.0 if kind == "min_take" else -6.0
         mk[kind] = dict(start=[s], end=[e], values=[vol])
     scn_with = dict(grid=gj, prices=prices, assets=with_, mode="mono")
-    scn_without = dict(grid=gj, prices=prices, assets=copy.deepcopy(base), mode="mono")
+    base_wo = copy.deepcopy(base)
+    if kind == "order":   # "without" keeps the in-horizon order of the book
+        el2 = copy.deepcopy(el)
+        for key in ("start", "end", "capa", "price"):
+            el2["orders"][key] = el2["orders"][key][1:]
+        base_wo.insert(min(case["pos"], len(base_wo)), el2)
+    scn_without = dict(grid=gj, prices=prices, assets=base_wo, mode="mono")
     if g.tz:
         scn_with["date_tz"] = g.tz
         scn_without["date_tz"] = g.tz
@@ -182,7 +190,7 @@ def run_case(case):
     tab, nodes = run.table()
     T = g.T
     # (i) dispatched only inside window & horizon
-    if kind in KINDS_WINDOW or kind == "order":
+    if kind in KINDS_WINDOW:
         for (a, n), arr in tab.items():
             if a != "el":
                 continue
@@ -191,6 +199,19 @@ def run_case(case):
                 V.append(viol("c08.outside_window", "%s with window [%s, %s) = steps %s dispatches %.6f at node %s in step %d"
                               % (kind, s, e, inside, arr[bad[0]], n, bad[0]), tags, ctag))
                 break
+    # (i') where R2 models the portfolio: the value is the reference value for EVERY placement (clipped windows, partly
+    #      covered coarse steps, prorated takes)
+    try:
+        if kind == "block_storage":
+            raise R2.Unsupported("time blocks are judged by C05 (known finding D7b, block boundaries inside steps undefined)")
+        refm = R2.RefModel(scn_w)
+        rst, rval = refm.optimum()
+        if rst == "optimal" and not close(run.value, rval):
+            V.append(viol("c08.value", "%s with window/period [%s, %s) (%s): value %.8f, textbook model with the clipped window %.8f"
+                          % (kind, s, e, placement, run.value, rval), tags, ctag))
+        res["counters"]["ref_value_checked"] = 1
+    except R2.Unsupported:
+        pass
     # (ii) element without a grid point in the horizon is inert
     if placement == "empty":
         run2 = ImplRun(scn_wo, solver="SCIPY")
@@ -203,7 +224,7 @@ def run_case(case):
         else:
             try:
                 ref = R2.RefModel(scn_wo)
-                tab_o = {k: v for k, v in tab.items() if k[0] != "el"}
+                tab_o = {k: v for k, v in tab.items() if k[0] != "el" or kind == "order"}   # (the book stays, with its in-horizon order)
                 pst, pval = ref.plug_in(tab_o)
                 if pst != "optimal" or not close(pval, run2.value, abs_=1e-7 + ref.pin_slack):
                     V.append(viol("c08.inert", "with the out-of-horizon %s the other assets' dispatch is not an optimum of the portfolio without it (%s, %s vs %s)"
